@@ -304,6 +304,25 @@ def concretize_widths(v, m):
     return v
 
 
+def kani_cross_check(chk):
+    """E2: Kani/CBMC decides storage_slots_used == layout rule for all vectors of length <= 5 over the COMPILED code;
+    its verdict must agree with E1's (differential check of the MIR translator)."""
+    from .. import prepare
+    res = prepare.kani_slots(chk.world.build)
+    chk.extra['kani_cross_check'] = res
+    e1_holds = not any(k.startswith('slots:') for k, _, _ in chk.violations) and not any(k.startswith('slots:') for k in chk.known_hits)
+    if res.get('status') != 'ok':
+        chk.assumptions.append('E2 (Kani) inconclusive on this run: %s' % res.get('why', '')[:200])
+        return
+    if res['twin'] != 'FAILED':
+        chk.broken('Kani vacuity twin did not fail (%s): the harness assumptions are unsatisfiable' % res['twin'])
+    kani_holds = res['main'] == 'SUCCESSFUL'
+    if kani_holds != e1_holds:
+        chk.broken('E1 and E2 disagree on storage_slots_used: mirsym says %s, Kani says %s' % ('holds' if e1_holds else 'violated', res['main']))
+    chk.ok()
+    chk.sample({'kani': res})
+
+
 def body(chk):
     maxlen = 5 if chk.quick else 7
     nmem = 4 if chk.quick else 5
@@ -323,6 +342,7 @@ def body(chk):
     cases.append(('pack_struct_variables', 3, ['uint'], 'struct_contract'))
     cases.append(('pack_struct_variables', nmem, ['uint'], 'struct_contract'))
     chk.parallel(lambda c, it: check_pack_detector(c, *it), cases)
+    kani_cross_check(chk)
 
 
 if __name__ == '__main__':
